@@ -98,3 +98,30 @@ Theorem C11_reemit_ext_refuted :
             firstn 6 k1_reemitted = firstn 6 k1_bytes /\ skipn 7 k1_reemitted = skipn 7 k1_bytes.
 Proof. exact k1_reemit_differs. Qed.
 Print Assumptions C11_reemit_ext_refuted.
+
+(* ---- the parsers above are the source ----
+   Every parser of packet.go that the theorems of this file mention (parse_pcr, parse_pts_or_dts, parse_packet_header,
+   parse_packet_adaptation_field, parse_packet / parse_packet_bytes) is equal, as a computation in the iterator monad and
+   on every iterator whose bytes are in 0..255, to the definition that go/gen (itermonad.go) translates from the CURRENT
+   source of parsePCR / parsePTSOrDTS / parsePacketHeader / parsePacketAdaptationField / parsePacket into Gen/ParseGen.v.
+   An edit of one of these Go functions regenerates Gen/ParseGen.v and this theorem (Proofs/ParseGenEq.v) stops checking. *)
+Require Import Gen.ParseGen Proofs.ParseGenBits Proofs.ParseGenEq.
+Theorem C11_parsers_are_source :
+  same_on_bytes parse_pcr ParseGen.parsePCR /\
+  same_on_bytes parse_pts_or_dts ParseGen.parsePTSOrDTS /\
+  same_on_bytes parse_packet_header ParseGen.parsePacketHeader /\
+  same_on_bytes parse_packet_adaptation_field ParseGen.parsePacketAdaptationField /\
+  (forall skip, same_on_bytes (parse_packet skip) (ParseGen.parsePacket (Some skip))) /\
+  same_on_bytes (parse_packet no_skip) (ParseGen.parsePacket None) /\
+  (forall bs, bytes_ok bs -> parse_packet_bytes bs = run_iter (ParseGen.parsePacket None) bs).
+Proof. exact packet_parsers_are_source. Qed.
+Print Assumptions C11_parsers_are_source.
+(* the translated parsePacket runs: it parses the reference encoding of the example packet *)
+Example C11_parsers_are_source_inhabited :
+  bytes_ok (ref_packet_bytes ex_packet) /\
+  exists p, run_iter (ParseGen.parsePacket None) (ref_packet_bytes ex_packet) = Ok p /\ parse_packet_bytes (ref_packet_bytes ex_packet) = Ok p.
+Proof.
+  split.
+  - apply bytes_okb_ok. vm_compute. reflexivity.
+  - eexists. split; vm_compute; reflexivity.
+Qed.
